@@ -162,7 +162,12 @@ func c17xRun(ctx context.Context, c *c17xCase) (rec vtr.Rec) {
 		keptN []int
 		after int
 	)
-	for i := 0; i < 400; i++ {
+	// enough reads to reach the end one row at a time (a session cut short would look like a missing EOF)
+	maxReads := 400
+	for _, src := range c.Srcs {
+		maxReads += 5 * len(src)
+	}
+	for i := 0; i < maxReads; i++ {
 		k := c.Reads[i%len(c.Reads)]
 		dst := frame.Make(typ, k, k)
 		for col := 0; col < c.NCol; col++ {
